@@ -121,5 +121,7 @@ Definition remove_offset_from_nanos (nanoseconds offset : Z) : Z :=
   Z.abs (Z.rem ((nanoseconds - offset * NANOS_PER_SEC) + NANOS_PER_DAY) NANOS_PER_DAY).
 Definition add_offset_to_dn (days nanoseconds offset : Z) : res (Z * Z) :=
   unwrap (nanos_to_days_nanos (days_nanos_to_nanos days nanoseconds + offset * NANOS_PER_SEC)).
+Definition try_remove_offset_from_dn (days nanoseconds offset : Z) : res (Z * Z) :=
+  nanos_to_days_nanos (days_nanos_to_nanos days nanoseconds - offset * NANOS_PER_SEC).
 Definition remove_offset_from_dn (days nanoseconds offset : Z) : res (Z * Z) :=
-  unwrap (nanos_to_days_nanos (days_nanos_to_nanos days nanoseconds - offset * NANOS_PER_SEC)).
+  unwrap (try_remove_offset_from_dn days nanoseconds offset).
